@@ -355,5 +355,96 @@ class ScoreEq(Stream):
         return case["a"] != case["b"]
 
 
+BASES = ["s0", "s3", "h5", "c1", "b0", "a4", "su1", "hd2", "cu1", "bd1", "r", "l", "x0", "d3"]
+SUFFIXES = ["w", "h", "q", "e", "s", "t", "t7", "e5", "s3", "q7", "t5", "d", "dd"]
+
+
+def rand_steps(rng):
+    out = []
+    for _ in range(rng.randrange(0, 5)):
+        k = rng.choice(["suf", "suf", "o", "oabs", "aug", "dur", "amp", "tag", "dyn", "acc", "mode"])
+        if k == "suf": out.append(["suf", rng.choice(SUFFIXES)])
+        elif k == "o": out.append(["o", rng.randrange(-2, 3)])
+        elif k == "oabs": out.append(["oabs", rng.randrange(-2, 3)])
+        elif k == "aug": out.append(["aug", str(F(rng.randrange(1, 9), rng.randrange(1, 9)))])
+        elif k == "dur": out.append(["dur", str(F(rng.randrange(1, 40), rng.choice([1, 2, 3, 7, 16, 1001, 4096])))])
+        elif k == "amp": out.append(["amp", rng.randrange(0, 128)])
+        elif k == "tag": out.append(["tag", rng.choice(["x", "y"])])
+        elif k == "dyn": out.append(["dyn", rng.choice(list(DYN))])
+        elif k == "acc": out.append(["acc", rng.choice(["sharp", "flat", "natural"])])
+        elif k == "mode": out.append(["mode", rng.choice(["m", "mm", "M", "dorian"])])
+    return out
+
+
+def build_note(base, steps):
+    import musiclang.library as lib
+    n = getattr(lib, base)
+    for k, v in steps:
+        if k == "suf": n = getattr(n, v)
+        elif k == "o": n = n.o(v)
+        elif k == "oabs": n = n.oabs(v)
+        elif k == "aug": n = n.augment(F(v))
+        elif k == "dur": n = n.set_duration(F(v))
+        elif k == "amp": n = n.set_amp(v)
+        elif k == "tag": n = n.add_tag(v)
+        elif k in ("dyn", "acc", "mode"): n = getattr(n, v)
+    return n
+
+
+class BuiltEq(Stream):
+    """objects reached through the library's own operations (suffix chains, octave moves, dynamics, tags...) rather than through
+    the constructor: each must equal its copy and its deep copy, hash like them, and so must melodies, chords and scores made of them"""
+    name = "built_eq"
+    checker = None
+    pair = "property oracle: x == x.copy() == deepcopy(x), equal hashes, for notes/melodies/chords/scores built by chained library operations"
+    quick, thorough = 1500, 20000
+
+    def gen(self, rng, n):
+        for _ in range(n):
+            yield {"notes": [[rng.choice(BASES), rand_steps(rng)] for _ in range(rng.randrange(1, 4))]}
+
+    def impl(self, case):
+        from musiclang import Melody
+        import musiclang.library as lib
+        def f():
+            notes = [build_note(b, st) for b, st in case["notes"]]
+            mel = Melody([x.copy() for x in notes])
+            chord = (lib.I % lib.I.M)(piano__0=mel, violin__0=notes[0])
+            score = chord + (lib.V % lib.I.M)(piano__0=mel)
+            out = {}
+            for nm, objs in (("note", notes), ("melody", [mel]), ("chord", [chord]), ("score", [score])):
+                for x in objs:
+                    cp, dc = x.copy(), copy.deepcopy(x)
+                    if not (x == x): out.setdefault(nm, "not-reflexive")
+                    if not (cp == x and x == cp): out.setdefault(nm, "copy-not-equal")
+                    if not (dc == x and x == dc): out.setdefault(nm, "deepcopy-not-equal")
+                    if nm != "score" and not (hash(cp) == hash(x) == hash(dc)): out.setdefault(nm, "copy-hash-differs")
+            return out
+        return mlang.guarded(f)
+
+    def spec(self, case, r):
+        if mlang.is_exc(r):
+            return None     # an operation the library rejects (e.g. an accidental on a rest) builds nothing to compare
+        for nm in ("note", "melody", "chord", "score"):
+            if nm in r:
+                return {"sig": f"{nm}-built-{r[nm]}", "msg": f"{nm} built from {case['notes']}: {r[nm]}"}
+        return None
+
+    def nontrivial(self, case, r):
+        return not mlang.is_exc(r) and any(st for _, st in case["notes"])
+
+    def hist_keys(self, case, r):
+        return ["built-raises" if mlang.is_exc(r) else "built-ok"] + ["step-" + st[0] for _, sts in case["notes"] for st in sts]
+
+    def shrink(self, case):
+        ns = case["notes"]
+        if len(ns) > 1:
+            for i in range(len(ns)):
+                yield {"notes": ns[:i] + ns[i + 1:]}
+        for i, (b, st) in enumerate(ns):
+            for j in range(len(st)):
+                yield {"notes": ns[:i] + [[b, st[:j] + st[j + 1:]]] + ns[i + 1:]}
+
+
 def streams():
-    return [NoteEq(), AmpFigure(), TonEq(), MelodyEq(), ChordEq(), ScoreEq()]
+    return [NoteEq(), AmpFigure(), TonEq(), MelodyEq(), ChordEq(), ScoreEq(), BuiltEq()]
